@@ -261,10 +261,19 @@ func genC05(r *sim.Rng, c *sim.Case, tier string, idx int) {
 			task := sim.Task{Name: fmt.Sprintf("t%d", i)}
 			c.Knobs["locker_"+task.Name] = 1 // provider 1 (another node)
 			if i == 2 {
-				c.Knobs["locker_"+task.Name] = int64(sim.Pick(r, 1, 1))
+				// a second Locker object of the live provider (locker 3 -> provider 1), or the same one
+				c.Knobs["lockers"] = 4
+				c.Knobs["locker_"+task.Name] = int64(sim.Pick(r, 3, 3, 1))
 			}
 			task.Ops = append(task.Ops, sim.Op{K: "sleep", D: int64(lease/16) + r.I64n(int64(lease))})
-			task.Ops = append(task.Ops, sim.Op{K: "lockctx", E: -1, N: 1, D: int64(sim.Pick(r, 0, lease/2))})
+			if i == 1 && nc == 2 && r.Chance(1, 2) {
+				// this contender gives up somewhere in the dead holder's final lease epoch;
+				// the other one must still take over
+				giveUp := int64(hold) + r.I64n(int64(lease)+int64(lease)/2)
+				task.Ops = append(task.Ops, sim.Op{K: "lockctx", E: 1000 + giveUp, N: 1})
+			} else {
+				task.Ops = append(task.Ops, sim.Op{K: "lockctx", E: -1, N: 1, D: int64(sim.Pick(r, 0, lease/2))})
+			}
 			c.Tasks = append(c.Tasks, task)
 		}
 	case "s3":
